@@ -145,12 +145,25 @@ def x_prog(ctx, case):
     if case.get("rerun") and flavour not in ("stream", "none") and run.propagated is None:
         # the same instance once more: again exactly one outcome, nothing left over from run 1
         del log.events[:]
+        first_run_forced = bool(env.tags("force"))
         run.env.reset_for_rerun()
         run2 = programs.execute(program, factory, env=run.env, case=run.case)
         core2 = [n for n in log.names() if n in ("startTest", "stopTest") or n in recorders.OUTCOMES]
         ctx.check(len(core2) == 3 and core2[0] == "startTest" and core2[2] == "stopTest"
                   and core2[1] in recorders.OUTCOMES, "bracket.exactly-one-outcome",
                   lambda: {"second run of the same instance": core2, "first": names})
+        env2 = run2.env
+        # (a force_failure the USER set on the instance in run 1 is theirs and stays; one set by a failed
+        # expectThat belongs to the run it happened in)
+        user_forced = first_run_forced
+        if (len(core2) == 3 and not env2.raised and not env2.tags("expect_mismatch", "force") and not user_forced
+                and not program.get("force_attr") and not programs.is_decor_skip(program) and not xfail_decor
+                and program.get("upcall_su", True) and program.get("upcall_td", True)
+                and flavour in ("ext", "real", "py27", "twisted", "ext-falsy")):
+            # whatever the first run collected, a second run in which nothing is raised succeeds
+            ctx.check(core2[1] == "addSuccess", "success-when-nothing-raised",
+                      lambda: {"second run of the same instance": core2, "first": names,
+                               "raised in the first run": [(k, t) for k, t, _ in raised]})
     return nontrivial
 
 
@@ -185,6 +198,11 @@ def run(ctx):
         case = {"prog": prog, "flavour": rng.choice(FLAVOURS + EXTRA_FLAVOURS)}
         if rng.random() < 0.15 and "'handler'" not in repr(prog):
             case["rerun"] = True
+            if rng.random() < 0.5:
+                # everything the stages do happens in the first run only: the second run is clean
+                for stage in ("su_pre", "su", "test", "td_pre", "td"):
+                    if prog.get(stage):
+                        prog[stage] = [["first_run_only", prog[stage]]]
         r = rng.random()
         if r < 0.15:
             case["runner"] = "sync"
